@@ -89,6 +89,7 @@ static void case_reset(void)
   srv_frame_hook                               = NULL;
   srv_built_hook                               = NULL;
   sim_read_hook                                = NULL;
+  hl_config_hook                               = NULL;
   ck_epoch                                     = 0;
   app_srv_ever_mask                            = 0;
   mon_server_state_hook                        = NULL;
